@@ -79,6 +79,7 @@ class Module:
         self.functions: Dict[str, FuncInfo] = {}
         self.globals: Dict[str, ast.expr] = {}     # NAME = expr (last simple assignment)
         self.imports: Dict[str, Tuple[str, Optional[str]]] = {}  # local -> (module, name)
+        self.global_ann: Dict[str, str] = {}
 
     def rel(self):
         return os.path.relpath(self.path, repo_root())
@@ -142,6 +143,7 @@ class Program:
         elif isinstance(st, ast.AnnAssign):
             if isinstance(st.target, ast.Name) and st.value is not None:
                 m.globals[st.target.id] = st.value
+                m.global_ann[st.target.id] = ast.unparse(st.annotation)
         elif isinstance(st, ast.ImportFrom):
             base = self._abs_module(m, st.module, st.level)
             for a in st.names:
